@@ -33,8 +33,9 @@ const (
 	opRecv
 	opSelect
 	opClose
-	opStart // a freshly spawned thread waiting for its first slice
-	opYield // plain scheduling point (Go, timer operations, external return)
+	opStart  // a freshly spawned thread waiting for its first slice
+	opYield  // plain scheduling point (Go, timer operations, external return)
+	opChoice // data nondeterminism owned by the scheduler (iteration order of a map): n alternatives, no thread switch
 )
 
 type selCase struct {
@@ -45,6 +46,7 @@ type selCase struct {
 }
 
 type op struct {
+	nalt  int // opChoice: number of alternatives
 	kind  opKind
 	ch    uintptr
 	val   interface{}
@@ -322,6 +324,12 @@ func (s *Sched) canRecv(t *thread, ch uintptr) bool {
 
 func (s *Sched) alts() []Alt {
 	var out []Alt
+	if s.cur != nil && s.cur.state == tRunnable && s.cur.op != nil && s.cur.op.kind == opChoice && !s.cur.op.done {
+		for i := 0; i < s.cur.op.nalt; i++ {
+			out = append(out, Alt{Thread: s.cur.id, Case: i, Timer: -1, Ticker: -1, Desc: fmt.Sprintf("%s iterates a map starting at entry %d of %d @%s", s.cur.name, i, s.cur.op.nalt, s.cur.op.site)})
+		}
+		return out
+	}
 	add := func(t *thread) {
 		if t.state != tRunnable || t.op == nil {
 			return
@@ -571,6 +579,8 @@ func (s *Sched) apply(a Alt) *thread {
 		return t // resumes with the result a partner gave it
 	}
 	switch o.kind {
+	case opChoice:
+		s.complete(t, nil, true, a.Case)
 	case opStart, opYield:
 		o.done = true
 		t.nops++
@@ -1314,6 +1324,70 @@ func SetKeyFn(f func() string) { mine().KeyFn = f }
 
 // Yield is a plain scheduling point for harness code.
 func Yield() { mine().point(&op{kind: opYield, site: site()}) }
+
+// ---- map iteration ------------------------------------------------------------------------------------------
+//
+// `for k, v := range m` over a map is rewritten to range over MapEntries(m): Go leaves the iteration order
+// unspecified (and randomises it), which is nondeterminism the explorer must own. The entries are taken in the
+// sorted order of their keys; with Config.MapOrders the scheduler additionally chooses the entry the iteration
+// starts at (every rotation is an explored alternative). As with the built-in, an entry removed before it is
+// reached is skipped and the value is read when the entry is reached.
+
+type MapEntry[K comparable, V any] struct {
+	K K
+	m map[K]V
+}
+
+func (e MapEntry[K, V]) Live() bool { _, ok := e.m[e.K]; return ok }
+func (e MapEntry[K, V]) Val() V     { return e.m[e.K] }
+
+// MapOrders: iteration start is a scheduler choice (set by the explorer from Config.MapOrders).
+var MapOrders bool
+
+func MapEntries[K comparable, V any](m map[K]V) []MapEntry[K, V] {
+	if len(m) == 0 {
+		return nil
+	}
+	out := make([]MapEntry[K, V], 0, len(m))
+	for k := range m {
+		out = append(out, MapEntry[K, V]{K: k, m: m})
+	}
+	sort.Slice(out, func(i, j int) bool { return lessKey(out[i].K, out[j].K) })
+	if MapOrders && len(out) > 1 && cur != nil {
+		if _, managed := gids.Load(goid()); managed {
+			s := mine()
+			if !s.setup && !s.finished {
+				o := s.point(&op{kind: opChoice, nalt: len(out), site: site()})
+				if k := o.chosen; k > 0 && k < len(out) {
+					out = append(append([]MapEntry[K, V]{}, out[k:]...), out[:k]...)
+				}
+			}
+		}
+	}
+	return out
+}
+
+func lessKey(a, b interface{}) bool {
+	switch x := a.(type) {
+	case int:
+		return x < b.(int)
+	case uint64:
+		return x < b.(uint64)
+	case uint32:
+		return x < b.(uint32)
+	case uint16:
+		return x < b.(uint16)
+	case uint8:
+		return x < b.(uint8)
+	case int64:
+		return x < b.(int64)
+	case string:
+		return x < b.(string)
+	case time.Duration:
+		return x < b.(time.Duration)
+	}
+	return fmt.Sprint(a) < fmt.Sprint(b)
+}
 
 // ---- running one execution -----------------------------------------------------------------------------------
 
